@@ -743,3 +743,254 @@ Section Order.
     destruct (v_key y) as [py ty vy], (v_key x) as [px tx vx]. simpl in *. congruence.
   Qed.
 End Order.
+
+(* ====================================================================== *)
+(* what Versions returns, and that it is determined by the set of live versions *)
+Section Final.
+  Variable O : oracle.
+  Variable var : variant.
+
+  Lemma versions_members ops p vs : var <> Current ->
+    versions_of (run O var ops) p = Ok vs ->
+    NoDup (map v_key vs) /\
+    forall v, In v vs <-> (v_pkg v = p /\ option_map fst (last_add ops (v_key v)) = Some v).
+  Proof.
+    intros Hv H. unfold versions_of in H.
+    destruct (pkg_list (run O var ops) p) eqn:E; inversion H; subst; clear H.
+    destruct (run_wf O var ops _ _ E) as [ND FA]. split; auto.
+    intros v. rewrite <- (run_ver_lookup O var ops (v_key v) Hv).
+    unfold ver_lookup, pkg_list_or_nil. change (vk_pkg (v_key v)) with (v_pkg v).
+    split.
+    - intros Hin. rewrite Forall_forall in FA. pose proof (FA v Hin) as Pv. split; auto.
+      rewrite Pv, E. apply find_ver_some; auto.
+    - intros [Pv Hl]. rewrite Pv, E in Hl. apply find_ver_some in Hl; tauto.
+  Qed.
+
+  Lemma versions_sorted ops p vs :
+    laws_ok O -> Forall (add_parses O) ops ->
+    var = FixAssignSort \/ N.eqb (pk_sys p) sys_npm = false ->
+    versions_of (run O var ops) p = Ok vs -> eco_sorted O (pk_sys p) vs.
+  Proof.
+    intros HL HP Hc H. unfold versions_of in H.
+    destruct (pkg_list (run O var ops) p) eqn:E; inversion H; subst; clear H.
+    pose proof (run_ord O var HL ops HP _ _ E) as I. unfold eco_sorted in *.
+    destruct (N.eqb (pk_sys p) sys_npm) eqn:Es.
+    - destruct Hc as [Hc|Hc]; [|discriminate]. exact (I Hc).
+    - apply I.
+  Qed.
+
+  Lemma versions_not_found ops p :
+    versions_of (run O var ops) p = Err ENotFound <-> existsb (fun o => mentions o p) ops = false.
+  Proof.
+    rewrite <- (run_known O var ops p). unfold versions_of, known.
+    destruct (pkg_list (run O var ops) p); split; intros; auto; discriminate.
+  Qed.
+End Final.
+
+Section Canonical.
+  Variable O : oracle.
+  Variable var : variant.
+  Hypothesis HL : laws_ok O.
+
+  (* Two histories that leave the same live versions in a package return the same slice
+     for it: the order of the slice does not remember the order of the additions.  For
+     Maven and PyPI this needs the side condition of F-C12-1. *)
+  Lemma versions_canonical ops1 ops2 p vs1 vs2 :
+    var <> Current ->
+    var = FixAssignSort \/ N.eqb (pk_sys p) sys_npm = false ->
+    Forall (add_parses O) ops1 -> Forall (add_parses O) ops2 ->
+    Forall add_concrete ops1 -> Forall add_concrete ops2 ->
+    (forall k, vk_pkg k = p -> option_map fst (last_add ops1 k) = option_map fst (last_add ops2 k)) ->
+    (N.eqb (pk_sys p) sys_npm = false -> no_equal_distinct O (pk_sys p) vs1) ->
+    versions_of (run O var ops1) p = Ok vs1 ->
+    versions_of (run O var ops2) p = Ok vs2 ->
+    vs1 = vs2.
+  Proof.
+    intros Hv Hc P1 P2 C1 C2 Hsame NE H1 H2.
+    destruct (versions_members O var ops1 p vs1 Hv H1) as [ND1 M1].
+    destruct (versions_members O var ops2 p vs2 Hv H2) as [ND2 M2].
+    pose proof (versions_sorted O var ops1 p vs1 HL P1 Hc H1) as S1.
+    pose proof (versions_sorted O var ops2 p vs2 HL P2 Hc H2) as S2.
+    assert (Hp : Permutation vs1 vs2).
+    { apply NoDup_Permutation.
+      - eapply NoDup_map_inv; eauto.
+      - eapply NoDup_map_inv; eauto.
+      - intros v. rewrite M1, M2. split; intros [Pv Hl]; split; auto.
+        + rewrite <- Hsame; auto.
+        + rewrite Hsame; auto. }
+    unfold versions_of in H1, H2.
+    destruct (pkg_list (run O var ops1) p) eqn:E1; inversion H1; subst; clear H1.
+    destruct (pkg_list (run O var ops2) p) eqn:E2; inversion H2; subst; clear H2.
+    destruct (run_wf O var ops1 _ _ E1) as [_ FA1].
+    pose proof (run_conc O var ops1 C1 _ _ E1) as FC1.
+    pose proof (nodup_ver p vs1 ND1 FA1 FC1) as NV1.
+    unfold eco_sorted in S1, S2.
+    destruct (N.eqb (pk_sys p) sys_npm) eqn:Es.
+    - destruct S1 as (b1 & Sb1 & ->). destruct S2 as (b2 & Sb2 & ->).
+      assert (Hpb : Permutation b1 b2).
+      { rewrite <- (reposition_perm O b1), <- (reposition_perm O b2). auto. }
+      assert (NVb : NoDup (map ver b1)).
+      { eapply Permutation_NoDup; [apply Permutation_map; apply reposition_perm | exact NV1]. }
+      f_equal.
+      apply (sorted_perm_unique (fun _ => True) (npm_cmp O) (npm_cmp_laws O (HL sys_npm))); auto.
+      + apply Forall_forall; auto.
+      + apply npm_separates; auto.
+    - pose proof (run_ord O var HL ops1 P1 _ _ E1) as I1. rewrite Es in I1. destruct I1 as [_ PP1].
+      apply (gen_sorted_unique O (pk_sys p) (HL (pk_sys p))); auto.
+  Qed.
+
+  (* ... and so does MatchingVersions, which is a function of that slice *)
+  Lemma matching_canonical ops1 ops2 k vs1 vs2 :
+    versions_of (run O var ops1) (vk_pkg k) = Ok vs1 ->
+    versions_of (run O var ops2) (vk_pkg k) = Ok vs2 ->
+    vs1 = vs2 ->
+    snd (matching_versions O (run O var ops1) k) = snd (matching_versions O (run O var ops2) k).
+  Proof.
+    intros H1 H2 E. rewrite !matching_snd. unfold versions_of in *.
+    destruct (pkg_list (run O var ops1) (vk_pkg k)); inversion H1; subst.
+    destruct (pkg_list (run O var ops2) (vk_pkg k)); inversion H2; subst. auto.
+  Qed.
+End Canonical.
+
+(* ====================================================================== *)
+(* witnesses *)
+Local Open Scope N_scope.
+Definition mkv (sys : N) (name : bytes) (s : bytes) (attrs : list (Z * bytes)) : version :=
+  {| v_key := {| vk_pkg := {| pk_sys := sys; pk_name := name |}; vk_type := vt_concrete; vk_ver := s |};
+     v_attrs := vset_of_pairs attrs |}.
+
+(* F-C14-1 on the code in the tree: a Maven version added twice, the second time with a
+   different attribute; Version still answers with the first.  No oracle is consulted. *)
+Definition w_stale_v1 : version := mkv sys_maven [97] [49] [(ver_tags, [120])].
+Definition w_stale_v2 : version := mkv sys_maven [97] [49] [(ver_tags, [121])].
+Definition w_stale : list hop := [HAdd w_stale_v1 []; HAdd w_stale_v2 []].
+
+Lemma stale_witness O :
+  option_map fst (last_add w_stale (v_key w_stale_v2)) = Some w_stale_v2 /\
+  version_of (run O Current w_stale) (v_key w_stale_v2) = Ok w_stale_v1 /\
+  w_stale_v1 <> w_stale_v2.
+Proof. repeat split; try reflexivity. discriminate. Qed.
+
+(* a small oracle for the examples: every string parses, nothing is a prerelease, versions
+   compare as byte strings, no requirement string is a constraint *)
+Definition demo_oracle : oracle := {|
+  o_parses := fun _ _ => true;
+  o_prerelease := fun _ _ => false;
+  o_compare := fun _ a b => bytes_compare a b;
+  o_constraint := fun _ _ => false;
+  o_match := fun _ _ _ => false |}.
+
+Lemma demo_laws : laws_ok demo_oracle.
+Proof. intros sys. apply core_laws. apply (core_weaken (fun _ => True)); [intros; exact I | apply bytes_core]. Qed.
+
+(* The one-token repair alone: npm versions 1 (tagged latest) and 2, then 1 again without
+   the tag.  The slice stays in the order computed for the old tags. *)
+Definition w_resort : list hop :=
+  [HAdd (mkv sys_npm [97] [49] [(ver_tags, s_latest)]) [];
+   HAdd (mkv sys_npm [97] [50] []) [];
+   HAdd (mkv sys_npm [97] [49] []) []].
+Definition w_resort_pkg : pkey := {| pk_sys := sys_npm; pk_name := [97] |}.
+
+Lemma resort_witness :
+  exists vs, versions_of (run demo_oracle FixAssign w_resort) w_resort_pkg = Ok vs /\
+             sort_versions demo_oracle vs <> vs /\
+             versions_of (run demo_oracle FixAssignSort w_resort) w_resort_pkg = Ok (sort_versions demo_oracle vs).
+Proof. eexists. split; [reflexivity|]. split; [vm_compute; discriminate | reflexivity]. Qed.
+
+(* F-C12-1 at the client: the same two PyPI versions added in the two possible orders,
+   under a lawful comparator that does not separate them (1.0 and 1.0.0): the final sets
+   of live versions agree, Versions and MatchingVersions do not. *)
+Definition w_tie_1 : list hop := [HAdd w_a []; HAdd w_b []].
+Definition w_tie_2 : list hop := [HAdd w_b []; HAdd w_a []].
+Definition w_tie_req : vkey :=
+  {| vk_pkg := {| pk_sys := sys_pypi; pk_name := [112] |}; vk_type := vt_requirement; vk_ver := [62;61;49] |}.
+
+Lemma last_add_two a b k : deleted a = false -> deleted b = false -> v_key a <> v_key b ->
+  option_map fst (last_add [HAdd a []; HAdd b []] k) = option_map fst (last_add [HAdd b []; HAdd a []] k).
+Proof.
+  intros Da Db Hk. unfold last_add. simpl. rewrite Da, Db.
+  destruct (vkey_eqb (v_key a) k) eqn:E1, (vkey_eqb (v_key b) k) eqn:E2; auto.
+  apply vkey_eqb_eq in E1, E2. congruence.
+Qed.
+
+Lemma client_tie_witness :
+  (forall k, option_map fst (last_add w_tie_1 k) = option_map fst (last_add w_tie_2 k)) /\
+  Forall add_concrete w_tie_1 /\ Forall add_concrete w_tie_2 /\
+  snd (matching_versions tie_oracle (run tie_oracle FixAssignSort w_tie_1) w_tie_req) = Ok [w_a; w_b] /\
+  snd (matching_versions tie_oracle (run tie_oracle FixAssignSort w_tie_2) w_tie_req) = Ok [w_b; w_a].
+Proof.
+  split; [intros k; apply last_add_two; try reflexivity; discriminate|].
+  repeat split; repeat constructor.
+Qed.
+
+(* the hypotheses of versions_canonical are satisfiable: two Maven versions, both orders *)
+Definition w_c1 : version := mkv sys_maven [97] [49] [].
+Definition w_c2 : version := mkv sys_maven [97] [50] [(ver_tags, [120])].
+Lemma canonical_example :
+  let p := {| pk_sys := sys_maven; pk_name := [97] |} in
+  let h1 := [HAdd w_c1 []; HAdd w_c2 []] in
+  let h2 := [HAdd w_c2 []; HAdd w_c1 []] in
+  Forall (add_parses demo_oracle) h1 /\ Forall (add_parses demo_oracle) h2 /\
+  Forall add_concrete h1 /\ Forall add_concrete h2 /\
+  (forall k, vk_pkg k = p -> option_map fst (last_add h1 k) = option_map fst (last_add h2 k)) /\
+  versions_of (run demo_oracle FixAssign h1) p = Ok [w_c1; w_c2] /\
+  versions_of (run demo_oracle FixAssign h2) p = Ok [w_c1; w_c2] /\
+  no_equal_distinct demo_oracle sys_maven [w_c1; w_c2].
+Proof.
+  cbv zeta. repeat split; try (repeat constructor; fail).
+  - intros k _. apply last_add_two; try reflexivity; discriminate.
+  - intros a b _ _ E. simpl in E. apply bytes_compare_eq in E. auto.
+Qed.
+
+(* ====================================================================== *)
+(* the statements in the form Properties/C14.v quotes *)
+Lemma run_version_of O var ops k : var <> Current ->
+  version_of (run O var ops) k =
+    match last_add ops k with Some (v, _) => Ok v | None => Err ENotFound end.
+Proof.
+  intros Hv. rewrite version_of_lookup, run_ver_lookup by auto.
+  destruct (last_add ops k) as [[v d]|]; auto.
+Qed.
+
+Lemma run_requirements_of O var ops k :
+  requirements_of (run O var ops) k =
+    match last_add ops k with Some (_, d) => Ok (sort_deps d) | None => Err ENotFound end.
+Proof.
+  rewrite requirements_of_lookup, run_req_lookup.
+  destruct (last_add ops k) as [[v d]|]; auto.
+Qed.
+
+Lemma run_packages_known O var ops o v d :
+  In o ops -> live_add o = Some (v, d) ->
+  (exists vs, versions_of (run O var ops) (v_pkg v) = Ok vs) /\
+  (forall r, In r d -> exists vs, versions_of (run O var ops) (r_pkg r) = Ok vs).
+Proof.
+  intros Hin Hl. split; [|intros r Hr]; apply versions_of_known; rewrite run_known;
+    apply existsb_exists; exists o; split; auto; unfold mentions; rewrite Hl.
+  - rewrite pkey_eqb_refl. auto.
+  - apply orb_true_iff. right. apply existsb_exists. exists r. split; auto. apply pkey_eqb_refl.
+Qed.
+
+Lemma add_current_refuted :
+  ~ (forall O c v deps k, wf c ->
+       ver_lookup (add_version O Current c v deps) k =
+         if deleted v then ver_lookup c k else if vkey_eqb (v_key v) k then Some v else ver_lookup c k).
+Proof.
+  intros H.
+  specialize (H demo_oracle (run demo_oracle Current [HAdd w_stale_v1 []]) w_stale_v2 [] (v_key w_stale_v2)
+                (run_wf demo_oracle Current _)).
+  vm_compute in H. discriminate.
+Qed.
+
+(* the requirements come back in npm resolution order when the first one given is an npm
+   requirement, and as given otherwise *)
+Lemma sort_deps_order ds :
+  Permutation (sort_deps ds) ds /\
+  match ds with
+  | [] => sort_deps ds = []
+  | d0 :: _ => if N.eqb (r_sys d0) sys_npm then StronglySorted dep_le (sort_deps ds) else sort_deps ds = ds
+  end.
+Proof.
+  split; [apply sort_deps_perm|]. destruct ds as [|d0 t]; auto.
+  destruct (N.eqb (r_sys d0) sys_npm) eqn:E; [apply sort_deps_npm_sorted | apply sort_deps_other]; auto.
+Qed.
